@@ -479,3 +479,105 @@ def size_of_text(x):
     import sys as _sys
 
     return _sys.getsizeof(x)
+
+
+# -- analytic clauses (pyvc/analytic.py decides them symbolically; natively: finite differences / tolerance) ----------
+
+
+def _flat(x):
+    import numpy as _np
+
+    return _np.asarray(x, dtype=float).reshape(-1)
+
+
+def is_gradient(f, x, g, rel=2e-5):
+    """g[j] == d f(x) / d x[j]  (native meaning: Richardson-extrapolated central differences agree within ``rel``)"""
+    import numpy as _np
+
+    x0 = _np.array(x, dtype=float)
+    gs = _flat(g)
+    if gs.size != x0.size:
+        return False
+    flat = x0.reshape(-1)
+    for j in range(flat.size):
+        def at(h):
+            xp = flat.copy()
+            xp[j] += h
+            xm = flat.copy()
+            xm[j] -= h
+            return (float(_flat(f(xp.reshape(x0.shape)))[0]) - float(_flat(f(xm.reshape(x0.shape)))[0])) / (2 * h)
+
+        h = 1e-4 * max(1.0, abs(flat[j]))
+        d = (4 * at(h / 2) - at(h)) / 3
+        if not abs(d - gs[j]) <= rel * (1 + abs(d) + abs(gs[j])):
+            return False
+    return True
+
+
+def analytic_eq(a, b, rel=1e-9):
+    import numpy as _np
+
+    a, b = _flat(a), _flat(b)
+    return a.shape == b.shape and bool(_np.all(_np.abs(a - b) <= rel * (1 + _np.abs(a) + _np.abs(b))))
+
+
+def std_normal_cdf(x):
+    from scipy.stats import norm as _norm
+
+    return _norm.cdf(x)
+
+
+def std_normal_pdf(x):
+    from scipy.stats import norm as _norm
+
+    return _norm.pdf(x)
+
+
+def real_exp(x):
+    import numpy as _np
+
+    return _np.exp(x)
+
+
+def real_log(x):
+    import numpy as _np
+
+    return _np.log(x)
+
+
+def real_sqrt(x):
+    import numpy as _np
+
+    return _np.sqrt(x)
+
+
+def real_pow(x, y):
+    import numpy as _np
+
+    return _np.power(x, y)
+
+
+def real_expm1(x):
+    import numpy as _np
+
+    return _np.expm1(x)
+
+
+def is_finite(x):
+    import numpy as _np
+
+    return bool(_np.all(_np.isfinite(_np.asarray(x, dtype=float))))
+
+
+def joint_jitter():
+    return 1e-5
+
+
+def analytic_eq_mod(a, b, rel=1e-6):
+    return analytic_eq(a, b, rel)
+
+
+def real_pi():
+    import math
+
+    return math.pi
